@@ -98,6 +98,8 @@ pub const LEAVES: &[&str] = &[
     "(gfix K K)",
     "(gvar K K K)",
     "(apply gvar K (list K))",
+    "(apply gvar K K (list K K))",
+    "(apply gfix (list K K))",
     "(p K)",
     "(car '())",
     "undefined-global",
